@@ -9,23 +9,29 @@ template<class Geod> static void props(const char* name, const Geod& g, double a
   if (std::isnan(acc)) return;
   Inv r = inv(g, lat1, lon1, lat2, lon2);
   double tol = tol_pos(acc, ea, r.a12);
+  // Finding F26 (known_findings.json): on strongly prolate ellipsoids (f <= -0.3) the exact solver loses accuracy for nearly antipodal
+  // points next to the equator (the two symmetric geodesics merge with the equatorial one there): closure errors of millimetres against
+  // a documented 25-100 nm.  Class: exact solver, f <= -0.3, both |lat| <= 1 deg, |lon12| within 1 deg of 180, error <= 5 cm; anything
+  // larger, or outside the class, is reported under the ordinary relation name.
+  bool f26c = std::string(name) == "exact" && f <= -0.3 && std::fabs(lat1) <= 1 && std::fabs(lat2) <= 1 && std::fabs(std::fabs(Math::AngDiff(lon1, lon2)) - 180) <= 1;
+  auto rel = [&](const char* base, double err_m) { return std::string(f26c && err_m <= 0.05 ? "F26-prolate-antipodal-exact: " : "") + base + "-" + name; };
   // (1) the returned geodesic really joins the points: follow it with the specification oracle
   if (oracle_ok(f)) {
     oracle::Line L(ea, f, lat1, lon1, r.azi1); oracle::Line::Pos p = L.position(false, r.s12);
     double d = (double)oracle::ground(ea, lat2, lon2, p.lat2, lon1 + p.lon12);
-    if (!(d <= 1.5 * tol)) bad(std::string("inverse-closure-") + name, "following the returned azimuth and distance misses point 2 by " + std::to_string(d * 1e9) + " nm (tolerance " + std::to_string(1.5 * tol * 1e9) + ")");
+    if (!(d <= 1.5 * tol)) bad(rel("inverse-closure", d), "following the returned azimuth and distance misses point 2 by " + std::to_string(d * 1e9) + " nm (tolerance " + std::to_string(1.5 * tol * 1e9) + ")");
     if (r.s12 > 1e-3) { LD ang = dir_angle(lat2, lon2, r.azi2, p.lat2, lon1 + p.lon12, p.azi2); double q = (1 - f) >= 1 ? (1 - f) : 1 / (1 - f);
       // azimuth at point 2: an end-point error d changes the azimuth by ~ d / s12 as well
-      if (!((double)ang <= (1.5 * tol / ea + 8e-16) * q + 2 * d / std::fmax(r.s12, 1e-3) + 2 * tol / std::fmax(std::fabs(r.m12), 1.0) * 0 + 1e-15)) bad(std::string("inverse-azi2-") + name, "returned forward azimuth differs from the geodesic's by " + std::to_string((double)ang) + " rad"); }
+      if (!((double)ang <= (1.5 * tol / ea + 8e-16) * q + 2 * d / std::fmax(r.s12, 1e-3) + 2 * tol / std::fmax(std::fabs(r.m12), 1.0) * 0 + 1e-15)) bad(rel("inverse-azi2", (double)ang * ea), "returned forward azimuth differs from the geodesic's by " + std::to_string((double)ang) + " rad"); }
     if (std::fabs((double)p.a12 - r.a12) * Math::degree() * ea > 1.5 * tol + 1e-9 * 0) bad(std::string("inverse-a12-") + name, "a12 inconsistent with the geodesic");
     // shortest: on a prolate ellipsoid the longitudinal extent is at most 180
-    if (f < 0 && std::fabs(lat1) < 89.999999 && std::fabs(lat2) < 89.999999 && !(std::fabs((double)p.lon12) <= 180 + 1e-9)) bad(std::string("inverse-extent-") + name, "longitudinal extent " + std::to_string((double)p.lon12) + " > 180 on a prolate ellipsoid");
+    if (f < 0 && std::fabs(lat1) < 89.999999 && std::fabs(lat2) < 89.999999 && !(std::fabs((double)p.lon12) <= 180 + 1e-9)) bad(rel("inverse-extent", (std::fabs((double)p.lon12) - 180) * Math::degree() * ea), "longitudinal extent " + std::to_string((double)p.lon12) + " > 180 on a prolate ellipsoid");
   }
   // (2) shortest path: no conjugate point inside (m12 >= 0), triangle inequality through way points
   if (r.a12 > 1e-6 && r.a12 < 179.999 && !(r.m12 >= -2 * tol)) bad(std::string("inverse-conjugate-") + name, "m12 = " + std::to_string(r.m12) + " < 0: a conjugate point lies inside the returned geodesic, it is not a shortest path");
   { double wl[3][2] = {{(lat1 + lat2) / 2 + 7, lon1 + 0.5 * Math::AngDiff(lon1, lon2) + 11}, {std::fmax(-89.0, std::fmin(89.0, lat1 * 0.3 - lat2 * 0.2)), lon1 + 90}, {std::fmax(-89.0, std::fmin(89.0, lat2 + 20)), lon2 - 35}};
     for (auto& w : wl) { if (std::fabs(w[0]) > 90) continue; double s1, s2; g.Inverse(lat1, lon1, w[0], w[1], s1); g.Inverse(w[0], w[1], lat2, lon2, s2);
-      if (!(r.s12 <= s1 + s2 + 4 * tol)) { bad(std::string("inverse-triangle-") + name, "s12 = " + std::to_string(r.s12) + " exceeds the path through a way point by " + std::to_string(r.s12 - s1 - s2) + " m"); break; } } }
+      if (!(r.s12 <= s1 + s2 + 4 * tol)) { bad(rel("inverse-triangle", r.s12 - s1 - s2), "s12 = " + std::to_string(r.s12) + " exceeds the path through a way point by " + std::to_string(r.s12 - s1 - s2) + " m"); break; } } }
   // (3) symmetries (up to the documented choice among equally short geodesics)
   bool unique = !(std::fabs(lat1 + lat2) < 1e-9 && r.a12 > 170) && r.a12 < 179.9 && std::fabs(std::fabs(Math::AngDiff(lon1, lon2)) - 180) > 1e-9 && r.s12 > 1e-3;
   auto aeq = [&](double x, double y) { return std::fabs(Math::AngDiff(x, y)) <= (3 * tol / std::fmax(std::fabs(r.m12), 1e-3) + 1e-13) / Math::degree() + 1e-12; };
@@ -86,7 +92,7 @@ void gv::generate(const std::string& tier, uint64_t seed) {
   auto grid = [&](double lo, double hi) { return std::ldexp(std::floor(std::ldexp(r.range(lo, hi), 20)), -20); };   // exactly representable differences
   for (long i = 0; i < n; ++i) {
     double f = i % 3 == 0 ? fs[0] : r.pick(fs); double a = f == fs[0] ? 6378137.0 : 6.4e6;
-    double lat1, lon1, lat2, lon2; int k = r.irange(0, 11);
+    double lat1, lon1, lat2, lon2; int k = r.irange(0, 13);
     lat1 = r.range(-90, 90); lon1 = r.range(-180, 180); lat2 = r.range(-90, 90); lon2 = r.range(-180, 180);
     switch (k) {
     case 0: { int e = r.irange(1, 12); lat2 = -lat1 + r.range(-1, 1) * std::pow(10.0, -e); lon2 = lon1 + 180 - r.range(0, 1) * std::pow(10.0, -e); break; }   // antipodal astroid region
@@ -98,10 +104,16 @@ void gv::generate(const std::string& tier, uint64_t seed) {
     case 6: lon1 += 360 * r.irange(-3, 3); lon2 += 360 * r.irange(-3, 3); break;
     case 7: lat2 = -lat1; break;
     case 8: case 9: { f = r.pick(std::vector<double>{-0.05, -0.1, -0.2, -0.5, -1.0, -0.02, -0.01}); a = 6.4e6; lat1 = r.range(-40, 40); lat2 = -lat1 + r.range(-40, 40); lon2 = lon1 + (r.coin() ? 180.0 : 180 - std::pow(10.0, -r.irange(1, 9))); break; }   // opposite meridians on prolate ellipsoids: conjugate points on the meridian
+    case 12: { // both points within 1e-4 m … 0.3 m of the same pole, any longitudes ("really short lines" next to the pole)
+      double sgn = r.coin() ? 1 : -1, d1 = std::pow(10.0, r.range(-9, -5.5)), d2 = std::pow(10.0, r.range(-9, -5.5));
+      lat1 = sgn * (90 - d1); lat2 = sgn * (90 - d2); if (r.irange(0, 3) == 0) lon2 = lon1 + r.pick(std::vector<double>{90.0, 135.0, 179.0, 180.0, -120.0}); break; }
+    case 13: { // strongly eccentric ellipsoids (exact solver), nearly antipodal points next to the equator: Newton may fail, bisection must finish
+      f = r.pick(std::vector<double>{-0.5, -1.0, -2.0, -3.0, 0.75, 0.5}); a = 6.4e6; double e = std::pow(10.0, -r.range(1, 9));
+      lat1 = r.range(-1, 1) * (r.coin() ? 0.01 : 1.0); lat2 = -lat1 + r.range(-1, 1) * e * (f > 0 ? 30 : 1); lon2 = lon1 + 180 - r.range(0, 1) * (f > 0 ? 60 * e * 10 : e); break; }
     default: break; }
     if (std::fabs(lat2) > 90) lat2 = std::copysign(90.0, lat2);
     run("ginverse", {hx(a), hx(f), hx(lat1), hx(lon1), hx(lat2), hx(lon2)});
-    stratum("inverse-" + std::to_string(k < 10 ? k : 10));
+    stratum("inverse-" + std::to_string(k < 10 ? k : k >= 12 ? k : 10));
     if (i < 3) sample(current_op());
     // wrapper correspondence on inputs with exactly representable longitude differences (so the core sees the same problem)
     double g1 = grid(-90, 90), g2 = grid(-90, 90), h1 = grid(-180, 180) + 360 * r.irange(-1, 1), h2 = grid(-180, 180);
